@@ -97,7 +97,18 @@ func c08Populate(st reflect.Type, k int) reflect.Value {
 		case vocab.KNLV:
 			fv.Set(reflect.ValueOf(ap.NaturalLanguageValues{{Ref: ap.NilLangRef, Value: ap.Content(fmt.Sprintf("%s text %d", f.Name, n))}}))
 		case vocab.KItem:
-			var it ap.Item = ap.IRI(fmt.Sprintf("https://example.com/%s/%d", strings.ToLower(f.Name), n))
+			// the values rotate through what an item property can hold: an IRI, an embedded object, an embedded collection, an embedded
+			// page (a conversion that follows a property instead of viewing the value itself then reads another object's fields)
+			id := ap.IRI(fmt.Sprintf("https://example.com/%s/%d", strings.ToLower(f.Name), n))
+			var it ap.Item = id
+			switch (k + f.Index) % 4 {
+			case 1:
+				it = &ap.Object{ID: id, Type: ap.NoteType, Name: ap.DefaultNaturalLanguageValue(fmt.Sprintf("embedded %d", n))}
+			case 2:
+				it = &ap.OrderedCollection{ID: id, Type: ap.OrderedCollectionType, TotalItems: uint(n), OrderedItems: ap.ItemCollection{ap.IRI(string(id) + "/member")}}
+			case 3:
+				it = &ap.CollectionPage{ID: id, Type: ap.CollectionPageType, TotalItems: uint(n), Items: ap.ItemCollection{ap.IRI(string(id) + "/member")}}
+			}
 			fv.Set(reflect.ValueOf(&it).Elem())
 		case vocab.KItems:
 			fv.Set(reflect.ValueOf(ap.ItemCollection{ap.IRI(fmt.Sprintf("https://example.com/%s/%d/a", strings.ToLower(f.Name), n)), ap.IRI(fmt.Sprintf("https://example.com/%s/%d/b", strings.ToLower(f.Name), n))}))
